@@ -12,7 +12,9 @@ EXPLANATION = (
     "each store is guarded only by the parsed flag; (R-CONSUMER) each switch directly controls exactly its consumer call; "
     "(R-SINK) all three sinks of reformat_file write exactly the value returned by reformat_text and the formatter gets "
     "exactly what was read; (R-USAGE) usage errors are raised before any write-capable call on every CFG path and map to "
-    "non-zero exit constants in main; (R-LOOPSTATE) the per-file loop carries no variable between iterations (liveness). "
+    "non-zero exit constants in main; the up-front usage check quantifies over every file of the loop (membership / any), not one position; (R-WRITE-W8) after formatting, "
+    "every normal path of reformat_file writes the result (an in-place 'unchanged' shortcut would keep CRLF bytes the other entry "
+    "points normalise); (R-LOOPSTATE) the per-file loop carries no variable between iterations (liveness). "
     "Byte-identity of concrete outputs is not re-proved: it follows from identical bindings only together with C13."
 )
 
